@@ -307,11 +307,12 @@ type h1spec struct {
 	PeerClose  bool   `json:"peer_close,omitempty"` // re-used conn closed by the peer after the request head: transparent retry
 	Upload     bool   `json:"upload,omitempty"`
 	Bodiless   bool   `json:"bodiless,omitempty"`
-	HdrTimeout bool   `json:"hdr_timeout,omitempty"` // ResponseHeaderTimeout configured (1 h unless it is the injection)
-	Auto       bool   `json:"auto,omitempty"`        // auto-read mode: the call returns after the body
-	Expect     bool   `json:"expect,omitempty"`      // upload with Expect: 100-continue, ExpectContinueTimeout 1 h: the body waits for the peer's 100
-	Queued     bool   `json:"queued,omitempty"`      // MaxConnsPerHost = 1 and the only connection is busy: the request waits in getConn's queue
-	HSTimeout  bool   `json:"hs_timeout,omitempty"`  // TLS: the peer never answers the ClientHello; TLSHandshakeTimeout (300 ms) is what ends the dial; MaxConnsPerHost = 1
+	HdrTimeout bool   `json:"hdr_timeout,omitempty"`     // ResponseHeaderTimeout configured (1 h unless it is the injection)
+	Auto       bool   `json:"auto,omitempty"`            // auto-read mode: the call returns after the body
+	Expect     bool   `json:"expect,omitempty"`          // upload with Expect: 100-continue, ExpectContinueTimeout 1 h: the body waits for the peer's 100
+	Queued     bool   `json:"queued,omitempty"`          // MaxConnsPerHost = 1 and the only connection is busy: the request waits in getConn's queue
+	Stall      bool   `json:"producer_stalls,omitempty"` // upload whose producer stalls after 32 KiB: Read blocks until the body is closed
+	HSTimeout  bool   `json:"hs_timeout,omitempty"`      // TLS: the peer never answers the ClientHello; TLSHandshakeTimeout (300 ms) is what ends the dial; MaxConnsPerHost = 1
 }
 
 type obs struct {
@@ -338,6 +339,7 @@ type obs struct {
 	ReqBody       bool     `json:"req_body"`
 	ReqBodyClosed bool     `json:"req_body_closed"`
 	ReadsAfter    int64    `json:"reads_after"`
+	ReaderStuck   bool     `json:"goroutine_still_inside_body_read"`
 	Quiesced      bool     `json:"quiesced"`
 	Stuck         []string `json:"stuck,omitempty"`
 	Leaked        []string `json:"leaked,omitempty"`
@@ -505,6 +507,18 @@ func h1steps(sp h1spec) []step {
 		fresh()
 	}
 	if sp.HSTimeout {
+		return st
+	}
+	if sp.Stall {
+		st = append(st, step{"32 KiB of the request body read by the peer, the producer has stalled", []string{"XWroteSome"}, func(r *h1run) error {
+			if err := r.pc.readBody(32 << 10); err != nil {
+				return err
+			}
+			if !settle(func() bool { return r.body.inRead.Load() > 0 }) {
+				return errors.New("the upload is not parked in the body's Read")
+			}
+			return nil
+		}})
 		return st
 	}
 	if sp.Upload {
@@ -744,6 +758,9 @@ func runH1(sp h1spec, kind string, pos int, racy bool, quick bool) (o obs) {
 			size = 6 << 20 // still more than the loopback socket buffers take
 		}
 		r.body = newTrackedBody(size)
+		if sp.Stall {
+			r.body.stallAt = 32 << 10
+		}
 		rq.SetBody(io.ReadCloser(r.body))
 		o.ReqBody = true
 	}
@@ -802,7 +819,7 @@ func runH1(sp h1spec, kind string, pos int, racy bool, quick bool) (o obs) {
 		// model comparison uses the union over all earlier positions
 		o.Harness = ""
 	}
-	o.Complete = pos == len(steps) && !racy && !sp.HSTimeout
+	o.Complete = pos == len(steps) && !racy && !sp.HSTimeout && !sp.Stall
 	t0 := time.Now()
 	if racy {
 		// the injection and the last step happen at the same time
@@ -909,6 +926,8 @@ func runH1(sp h1spec, kind string, pos int, racy bool, quick bool) (o obs) {
 		}
 	}
 	if r.body != nil {
+		o.ReaderStuck = r.body.inRead.Load() > 0
+		r.body.release()  // (a harness resource: let a goroutine that is still parked in Read go)
 		r.body.markStop() // everything that worked for the request has ended: no Read may follow
 		settle(func() bool { return r.body.closes.Load() > 0 })
 		o.ReqBodyClosed = r.body.closes.Load() > 0
